@@ -35,3 +35,31 @@ Example gen_add_node_checks_examples :
   G.add_node_checks u (Some 1%N) None None (h 1%N TAny) None = true /\
   G.add_node_checks u (Some 1%N) None None (h 1%N (TConc 0)) None = false.
 Proof. repeat split; reflexivity. Qed.
+
+(* ------------------------------------------------------------------ addNode as a whole *)
+
+(* the whole body of addNode (sticky build error, compiled flag, the deferred function, reserved keys,
+   duplicate key, the option / state-handler checks, g.nodes[key] = node) is the model's [add_node];
+   the node is stored with the helper of its runnable *)
+Theorem gen_add_node_agrees : forall u xs k isp i o pre post,
+  match G.add_node u xs k isp i o pre post with
+  | AOk xs' => add_node (x_st xs) k isp i o pre post = (x_st xs', true) /\ xs' = x_push_node xs k isp i o pre post /\
+               has_node (x_st xs) k = false
+  | AFailPlain => add_node (x_st xs) k isp i o pre post = (x_st xs, false)
+  | AFailSticky => add_node (x_st xs) k isp i o pre post = (set_err (x_st xs), false)
+  | AOutside => False
+  end.
+Proof.
+  intros u xs k isp i o pre post.
+  unfold G.add_node, add_node, handler_ok, h_state_of, h_ty_of, rt_eq, rt_is_nil, st_eq, opt_some, x_has_node.
+  destruct (g_err (x_st xs)); [reflexivity|].
+  destruct (g_compiled (x_st xs)); [reflexivity|].
+  rewrite (Bool.orb_comm (N.eqb k kEND) (N.eqb k kSTART)).
+  destruct (N.eqb k kSTART || N.eqb k kEND); [reflexivity|].
+  destruct (has_node (x_st xs) k) eqn:Hn; [reflexivity|].
+  destruct pre as [[ps pt pr]|], post as [[qs qt qr]|], (g_st (x_st xs)) as [s|], i as [ti|], o as [to|]; simpl;
+    repeat match goal with
+           | |- context [N.eqb ?a ?b] => destruct (N.eqb a b); simpl
+           | |- context [ty_eqb ?a ?b] => destruct (ty_eqb a b); simpl
+           end; try reflexivity; (split; [reflexivity | split; reflexivity]).
+Qed.
